@@ -3,6 +3,7 @@ pub mod c03;
 pub mod c05;
 pub mod c10;
 pub mod c13;
+pub mod ident;
 pub mod codegen;
 pub mod router;
 pub mod rpc;
@@ -53,6 +54,7 @@ pub fn dispatch(args: &[String]) -> i32 {
         "replay-inflight" => tower::replay_inflight(&a),
         "replay-auth" => tower::replay_auth(&a),
         "replay-wire" => wire::replay(&a),
+        "replay-identity" => ident::replay(&a),
         "replay-codegen" => codegen::replay(&a),
         "replay-router" => router::replay(&a),
         "replay-rate" => tower::replay_rate(&a),
